@@ -10,9 +10,9 @@ from lib.replay import drv_binary
 GO_BINS = ["/usr/lib/go-1.23/bin/gofmt", "/usr/lib/go-1.23/pkg/tool/linux_amd64/link"]
 
 
-def reloc(ctx, binary, env, tag):
+def reloc(ctx, binary, env, tag, test="^TestVerifRelocSweep$", minjudged=100):
     out = ctx.path("reloc.ndjson")
-    rc, o = ctx.run_bin(binary, "^TestVerifRelocSweep$", env=dict(env, VERIF_OUT=out, VERIF_QUIET="1"), timeout=1200)
+    rc, o = ctx.run_bin(binary, test, env=dict(env, VERIF_OUT=out, VERIF_QUIET="1"), timeout=1200)
     if rc != 0 or not os.path.exists(out):
         ctx.violation("the relocation driver crashed: " + o[-800:], {"family": "reloc", "kind": "crash", "tail": o[-2000:]})
         return
@@ -30,10 +30,10 @@ def reloc(ctx, binary, env, tag):
             tally[k] = tally.get(k, 0) + v
         for what, idx in summ[0]["bad"]:
             e = json.loads(part[idx - 1])
-            ctx.violation("relocation of %s for a trampoline at origin%+d: %s; function starts [%s], n=%d, output [%s], tail [%s]" % (
-                e["name"], -e["d"], what, " ".join("%02x" % b for b in e["fn"][:28]), e["n"],
-                " ".join("%02x" % b for b in e["out"]), " ".join("%02x" % b for b in e["tail"])),
-                {"family": "reloc", "kind": what, "name": e["name"], "d": e["d"], "fn": e["fn"][:64], "n": e["n"], "out": e["out"], "tail": e["tail"]})
+            ctx.violation("relocation of %s (%d bytes) into a placeholder at origin%+d: %s; function starts [%s], placeholder afterwards [%s] %s" % (
+                e["name"], e["size"], -e["d"], what, " ".join("%02x" % b for b in e["fn"][:28]),
+                " ".join("%02x" % b for b in e["out"][:40]), e["err"]),
+                {"family": "reloc", "kind": what, "name": e["name"], "d": e["d"], "fn": e["fn"][:64], "size": e["size"], "out": e["out"][:48], "err": e["err"]})
     ctx.cov["traces_validated_against_impl"] += len(lines)
     ctx.count(len(lines))
     judged = sum(v for k, v in tally.items() if k.startswith("ok"))
@@ -41,8 +41,8 @@ def reloc(ctx, binary, env, tag):
     ctx.cov.setdefault("reloc_tally", {})[tag] = tally
     ctx.note("%s: %d relocations judged: %s" % (tag, len(lines), tally))
     if lines:
-        ctx.sample({k: v for k, v in json.loads(lines[0]).items() if k != "fn"})
-    if judged < 100:
+        ctx.sample({k: v for k, v in json.loads(lines[0]).items() if k not in ("fn",)})
+    if judged < minjudged:
         raise vlib.Broken("too few faithful relocations judged (%d): vacuous" % judged)
 
 
@@ -83,10 +83,26 @@ def origin_depth(ctx):
     ctx.note("origin depth sweep: %d calls, %d explained only by the F5 deviation" % (len(evs), nf5))
 
 
+def streams(ctx, binary):
+    """spec -> code: abstract instruction streams enumerated by TLC (Gen_Reloc.tla), synthesised and relocated for real"""
+    import random
+    g = ctx.tlc("Gen_Reloc", "Gen_Reloc.cfg", workers=1, timeout=1500, tag="abstract prologue streams")
+    ss = ctx.behaviours(g)
+    if not ss:
+        raise vlib.Broken("no streams")
+    if ctx.quick():
+        random.Random(ctx.seed).shuffle(ss)
+        ss = ss[:4000]
+    gen = ctx.path("streams.ndjson")
+    vlib.write_ndjson(gen, ss)
+    reloc(ctx, binary, {"VERIF_GEN": gen}, "synthesised streams", test="^TestVerifRelocStreams$", minjudged=300)
+
+
 def run(ctx):
     q = ctx.quick()
     binary = ctx.build_test("internal/patch", ["reloc"], name="reloc")
-    reloc(ctx, binary, {"VERIF_SAMPLE": "1500" if q else "1000000", "VERIF_NDIST": "2" if q else "4"}, "driver binary")
+    reloc(ctx, binary, {"VERIF_SAMPLE": "2000" if q else "1000000", "VERIF_NDIST": "1" if q else "2"}, "driver binary")
+    streams(ctx, binary)
     if not q:
         for b in GO_BINS:
             if os.path.exists(b):
